@@ -33,6 +33,9 @@ RULE = (
     "out-of-zone lines never change the result; (4) no loaded node mixes CNAME with other data. Distinct by (mode, style-knob "
     "signature or re-spelling kind, zone class, relativize)."
 )
+RULE += " " + (
+    "Also: end-of-line comments per record under want_comments; $INCLUDE file [origin] against its one-file expansion; signed-looking zones with several RRSIGs per covered type."
+)
 ASSUMPTIONS = [
     "records whose own text form does not round-trip (C05 known findings) are kept out of the generated zones; C09 judges the zone-level writer/reader",
     "lossless style set excludes right justification of the owner column and non-space chunk separators",
